@@ -92,6 +92,10 @@ def run(ctx):
         srcs = sorted(srcs[:260])
     for s in srcs:
         jobs.append(('file', s, ['--enable=all', '--inconclusive', '--check-library', '--library=std,posix']))
+    # 1b. committed inputs aimed at rarely reported ids
+    from ..build import VERIF
+    corpus = sorted(glob.glob(os.path.join(VERIF, 'corpus', 'c28', '*.c')) + glob.glob(os.path.join(VERIF, 'corpus', 'c28', '*.cpp')))
+    jobs.append(('corpus', tuple(corpus), ['--enable=all', '--inconclusive', '--check-library', '--library=std']))
     # 2. cfg tests (large): a few in quick, all in thorough
     cfgs = sorted(glob.glob(os.path.join(REPO, 'test', 'cfg', '*.c')) + glob.glob(os.path.join(REPO, 'test', 'cfg', '*.cpp')))
     cfgs = [c for c in cfgs if os.path.getsize(c) < (60000 if ctx.quick() else 10 ** 7)]
@@ -118,6 +122,11 @@ def run(ctx):
                 files = {os.path.basename(what): open(what, errors='replace').read()}
                 desc = os.path.relpath(what, REPO)
                 args = [what]
+                cwd = d
+            elif kind == 'corpus':
+                files = {os.path.basename(f): open(f).read() for f in what}
+                desc = 'corpus/c28'
+                args = list(what)
                 cwd = d
             elif kind == 'proj':
                 r = ctx.subrng('proj', what)
